@@ -617,6 +617,10 @@ impl SWCurveConfig for Sw1o {
     const COEFF_B: F13 = MontFp!("2");
     const GENERATOR: sw::Affine<Self> = sw::Affine::new_unchecked(MontFp!("1"), MontFp!("4"));
     fn mul_projective(p: &sw::Projective<Self>, scalar: &[u64]) -> sw::Projective<Self> {
+        // same shape as the shipped overrides after fix b95ee89 (long slices take the generic path)
+        if scalar.len() > <F19 as PrimeField>::MODULUS.0.len() {
+            return ark_ec::scalar_mul::sw_double_and_add_projective(p, scalar);
+        }
         let s = Self::ScalarField::from_sign_and_limbs(true, scalar);
         GLVConfig::glv_mul_projective(*p, s)
     }
